@@ -459,7 +459,7 @@ def project(spec, desc, cfg, o, res, calls, crash) -> dict:
     rec = {
         "N": int(spec["cfg"]["population_size"]), "dir": desc.get("minmax", "min"), "D": D,
         "sizecls": "variable" if opt in gen.VARIABLE_SIZE else "exact",
-        "elitist": opt not in gen.NON_ELITIST,
+        "elitist": gen.elitist(opt, spec["cfg"]),
         "kindp": [1 if k["k"] == "perm" else 0 for k in kinds],
         "mc": int(cfg.max_cycles), "hasFe": fe is not None, "hasEs": es is not None, "pat": int(es_pat),
         "lefe": lefe, "dec": dec, "nrates": len(rates), "rate_ok": bool(rate_ok),
